@@ -44,6 +44,7 @@ type EntrySpec struct {
 	Monitor   string    `json:"monitor"`
 	Vectors   [][]uint64 `json:"vectors"`
 	NoRandom  bool      `json:"no_random_validation"`
+	NoCross   bool      `json:"no_cross"` // do not re-ask unsat final obligations of the second solver (whole-connection entries whose formulas the old z3 cannot digest)
 	fn        *ssa.Function
 	params    map[string]int
 }
